@@ -5,7 +5,8 @@ from . import core
 from .core import Undecided, ROOT
 
 KNOWN = os.path.join(ROOT, "known-findings.txt")
-REPLAY_OUT = os.path.join(ROOT, "replay-out")
+OUT = os.environ.get("VERIF_OUT", ROOT)   # scratch runs against another tree (seed testing) write elsewhere
+REPLAY_OUT = os.path.join(OUT, "replay-out")
 
 
 _replay_cache = {}
@@ -215,8 +216,8 @@ def check_property(prop, groups, tier, replays, seed=0, only_group=None, keep=Fa
     }
     ev = {"property_id": prop, "tier": tier, "seed": int(seed), "level": level, "coverage": cov,
           "assumptions": assumptions, "wall_s": round(time.time() - t0, 2), "violations": len(violations)}
-    os.makedirs(os.path.join(ROOT, "evidence"), exist_ok=True)
-    json.dump(ev, open(os.path.join(ROOT, "evidence", f"{prop}.json"), "w"), indent=1)
+    os.makedirs(os.path.join(OUT, "evidence"), exist_ok=True)
+    json.dump(ev, open(os.path.join(OUT, "evidence", f"{prop}.json"), "w"), indent=1)
     print(f"{prop}: {n_u} unbounded P obligations ({d_u} discharged), {n_b} bounded ({d_b} passed), "
           f"{len(A_all)} auxiliary, {len(known_hits)} known, {len(violations)} violations, "
           f"{len(undecided)} undecided groups, {time.time() - t0:.1f}s -> exit {rc}")
